@@ -64,6 +64,7 @@ type scenario struct {
 	round   int
 	deltas  []time.Duration // vote timestamps relative to lastBlockTime, per last validator
 	holes   []bool          // nil precommit slots
+	far     []int           // slots whose timestamp is moved 2^64 ns ahead (same UnixNano())
 	prop    int             // index into vals of the proposer
 	base    []byte          // amino bytes of the valid block
 }
@@ -92,8 +93,14 @@ func (sc *scenario) validCommit() *types.Commit {
 		if i < len(sc.deltas) {
 			d = sc.deltas[i]
 		}
+		ts := sc.sp.lastBlockTime.Add(d)
+		for _, f := range sc.far {
+			if f == i {
+				ts = add2p64(ts)
+			}
+		}
 		pc := &types.CommitSig{Type: types.PrecommitType, Height: sc.height - 1, Round: sc.round,
-			BlockID: sc.sp.lastBlockID, Timestamp: sc.sp.lastBlockTime.Add(d),
+			BlockID: sc.sp.lastBlockID, Timestamp: ts,
 			ValidatorAddress: pool[v.k].addr, ValidatorIndex: i}
 		signPrecommit(sc.sp.chainID, v.k, pc)
 		pcs[i] = pc
@@ -296,6 +303,40 @@ func fieldMedianTime(c *types.Commit, vals *types.ValidatorSet) (res time.Time, 
 	return time.Time{}, true
 }
 
+// add2p64 returns t + 2^64 ns (about 584.5 years): same UnixNano(), another instant.
+func add2p64(t time.Time) time.Time {
+	const half = time.Duration(math.MaxInt64) // 2^63-1 ns
+	return t.Add(half).Add(half).Add(2)
+}
+
+// wrapMedianTime is MedianTime as it was before repo commit 6794836d2f (weights by slot,
+// order by the wrapping UnixNano()).  Used only to build regression witnesses.
+func wrapMedianTime(c *types.Commit, vals *types.ValidatorSet) time.Time {
+	type wt struct {
+		t time.Time
+		w int64
+	}
+	var ws []wt
+	total := int64(0)
+	for i, pc := range c.Precommits {
+		if pc == nil || i >= len(vals.Validators) {
+			continue
+		}
+		w := vals.Validators[i].VotingPower
+		total += w
+		ws = append(ws, wt{pc.Timestamp, w})
+	}
+	sort.SliceStable(ws, func(i, j int) bool { return ws[i].t.UnixNano() < ws[j].t.UnixNano() })
+	median := total / 2
+	for _, x := range ws {
+		if median <= x.w {
+			return x.t
+		}
+		median -= x.w
+	}
+	return time.Time{}
+}
+
 func firstPC(b *types.Block, r *kit.Rand) (int, *types.CommitSig) {
 	if b.LastCommit == nil {
 		return -1, nil
@@ -341,6 +382,21 @@ func pcMuts(name string, f func(sc *scenario, pc *types.CommitSig, i int, n int,
 		}}
 	}
 	out := []mutation{mk("", false, false, false), mk("+sign", true, false, false), mk("+sign+time", true, true, false), mk("+stale", false, false, true)}
+	if strings.HasPrefix(name, "ts") {
+		// re-signed, and the block time the pre-6794836d2f WeightedMedian (UnixNano order) would have demanded
+		out = append(out, mutation{"pc-" + name + "+sign+wraptime", func(sc *scenario, b *types.Block, r *kit.Rand) {
+			i, pc := firstPC(b, r)
+			if pc == nil {
+				return
+			}
+			f(sc, pc, i, len(b.LastCommit.Precommits), r)
+			signPrecommit(sc.sp.chainID, sc.keyOfSlot(i), pc)
+			recommit(b, false)
+			if !sc.genesis {
+				b.Time = wrapMedianTime(b.LastCommit, sc.st.LastValidators)
+			}
+		}})
+	}
 	if strings.HasPrefix(name, "vidx-") {
 		// the block time the pre-fix MedianTime would have demanded
 		out = append(out, mutation{"pc-" + name + "+fieldtime", func(sc *scenario, b *types.Block, r *kit.Rand) {
@@ -599,6 +655,16 @@ func allMutations() []mutation {
 		{"ts+1h", func(sc *scenario, pc *types.CommitSig, i, n int, r *kit.Rand) { pc.Timestamp = pc.Timestamp.Add(time.Hour) }},
 		{"ts-1h", func(sc *scenario, pc *types.CommitSig, i, n int, r *kit.Rand) { pc.Timestamp = pc.Timestamp.Add(-time.Hour) }},
 		{"ts-zero", func(sc *scenario, pc *types.CommitSig, i, n int, r *kit.Rand) { pc.Timestamp = time.Time{} }},
+		{"ts+2p64", func(sc *scenario, pc *types.CommitSig, i, n int, r *kit.Rand) { pc.Timestamp = add2p64(pc.Timestamp) }},
+		{"ts+2p64-early", func(sc *scenario, pc *types.CommitSig, i, n int, r *kit.Rand) {
+			pc.Timestamp = add2p64(sc.sp.lastBlockTime.Add(time.Duration(1+r.Intn(3000)) * time.Millisecond))
+		}},
+		{"ts-year9999", func(sc *scenario, pc *types.CommitSig, i, n int, r *kit.Rand) {
+			pc.Timestamp = time.Date(9999, 12, 31, 23, 59, 59, 999999999, time.UTC)
+		}},
+		{"ts-year1", func(sc *scenario, pc *types.CommitSig, i, n int, r *kit.Rand) {
+			pc.Timestamp = time.Date(1, 1, 1, 0, 0, 0, 1, time.UTC)
+		}},
 		{"vidx-other", func(sc *scenario, pc *types.CommitSig, i, n int, r *kit.Rand) { pc.ValidatorIndex = (i + 1 + r.Intn(max(1, n-1))) % max(1, n) }},
 		{"vidx-heaviest", func(sc *scenario, pc *types.CommitSig, i, n int, r *kit.Rand) {
 			best := 0
@@ -982,6 +1048,9 @@ func randScenario(r *kit.Rand) *scenario {
 			default:
 				sc.deltas[i] = time.Duration(r.Intn(1<<33)) + 1
 			}
+			if r.Chance(4) {
+				sc.far = append(sc.far, i)
+			}
 		}
 		if r.Chance(30) && n > 1 {
 			sc.holes = make([]bool, n)
@@ -1059,6 +1128,30 @@ func witnesses(e *emitter, ms []mutation) {
 	pick("median-panic-vidx-n", 3, func(pc *types.CommitSig) { pc.ValidatorIndex = 4 }, false)
 	pick("median-weight-field-time", 2, func(pc *types.CommitSig) { pc.ValidatorIndex = 1 }, true)
 	pick("median-weight-true-time", 2, func(pc *types.CommitSig) { pc.ValidatorIndex = 1 }, false)
+	// repo commit 6794836d2f: 4 validators of power 10, timestamps +1s..+4s; the validator of
+	// slot 3 re-signs with +1.5s + 2^64 ns (year 2608), which UnixNano() sorted second
+	var eq *scenario
+	for _, sc := range tableScenarios() {
+		if sc.name == "h2-equal4" {
+			eq = sc
+		}
+	}
+	wrap := func(name string, wrapTime bool) {
+		e.w.Case("witness-" + name)
+		b := eq.block()
+		pc := b.LastCommit.Precommits[3]
+		pc.Timestamp = add2p64(eq.sp.lastBlockTime.Add(1500 * time.Millisecond))
+		signPrecommit(eq.sp.chainID, eq.keyOfSlot(3), pc)
+		recommit(b, false)
+		if wrapTime {
+			b.Time = wrapMedianTime(b.LastCommit, eq.st.LastValidators)
+		} else {
+			retime(eq, b)
+		}
+		e.emit(eq, b)
+	}
+	wrap("median-wrap-2608", true)
+	wrap("median-wrap-true-time", false)
 }
 
 func gen(w *kit.Out, r *kit.Rand, tier string) {
